@@ -49,12 +49,27 @@ def shifted(sub, d, kind):
     return all(m.get(k) == (None, None) for k in range(d)) and set(m) == set(range(d + 1))
 
 
-def rule_a(ctx, f):
+def rule_a(ctx, f, gm=None):
     R = "C07.a"
     ctx.rule(R, "connectivity and its inverse are built from mirrored shifts: per axis d, column 0 is cell_index[:-1] and column 1 "
              "cell_index[1:] on axis d (full slices before, ellipsis after); reverse_connectivity[d, cells[1:], 0] and [d, "
              "cells[:-1], 1] are faces[d] (exactly the other column); default fill -1; all ravel/reshape orders are 'F'; each block "
              "is guarded by self.dim >= d+1")
+    attrs = {norm(s.targets[0]): norm(s.value) for s in ast.walk(f.node) if isinstance(s, ast.Assign) and norm(s.targets[0]).startswith("self.")}
+    if gm is not None:
+        # decided on the folded method: the stores into both tables are, for dim 1, 2, 3 and a symbolic shape, exactly the documented ones
+        sc, sr = gm.same_stores("connectivity"), gm.same_stores("reverse_connectivity")
+        ic, ir, ci = gm.same_field("connectivity", "connect"), gm.same_field("reverse_connectivity", "connect"), gm.same_field("cell_index")
+        if sc[0] and sr[0] and ic[0] and ir[0] and ci[0]:
+            for d in range(3):
+                ctx.instance(R)
+                ctx.ob(R, f.qname, f"axis {d}: connectivity columns 0 / 1 are the lower / higher neighbour along axis {d} (Fortran order) and reverse_connectivity[{d}, cells, 0 / 1] "
+                       "inverts columns 1 / 0 (folded for dim 1, 2, 3; terms equal the documented construction)", True, "", f.node)
+            ctx.floor(R, 3)
+            ctx.ob(R, f.qname, "cells are numbered in Fortran order", True, "", f.node)
+            ctx.ob(R, f.qname, "'no face' is -1", True, "", f.node)
+            ctx.ob(R, f.qname, "connectivity has two columns per face", True, "", f.node)
+            return attrs
     conn, rev = {}, {}
     for st in ast.walk(f.node):
         if not isinstance(st, ast.Assign) or not isinstance(st.targets[0], ast.Subscript):
@@ -91,19 +106,29 @@ def rule_a(ctx, f):
             ctx.ob(R, f.qname, f"axis {d}: reverse_connectivity[{d}, cells, {s}] inverts connectivity column {1 - int(s)}", ok, norm(st)[:140], st)
             ctx.ob(R, f.qname, f"axis {d}: reverse block guarded by self.dim >= {d + 1}", dim_guard(st, f.node) in (f"{d + 1} <= self.dim", f"{d} < self.dim"), str(dim_guard(st, f.node)), st)
     ctx.floor(R, 3)
-    attrs = {norm(s.targets[0]): norm(s.value) for s in ast.walk(f.node) if isinstance(s, ast.Assign) and norm(s.targets[0]).startswith("self.")}
     ctx.ob(R, f.qname, "cells are numbered in Fortran order", attrs.get("self.cell_index") == "np.arange(self.num_cells, dtype=int).reshape(self.shape, order='F')", attrs.get("self.cell_index", ""), f.node)
     ctx.ob(R, f.qname, "'no face' is -1", attrs.get("self.reverse_connectivity") == "-np.ones((self.dim, self.num_cells, 2), dtype=int)", attrs.get("self.reverse_connectivity", ""), f.node)
     ctx.ob(R, f.qname, "connectivity has two columns per face", attrs.get("self.connectivity") == "np.zeros((self.num_faces, 2), dtype=int)", attrs.get("self.connectivity", ""), f.node)
     return attrs
 
 
-def rule_b(ctx, f, attrs):
+def rule_b(ctx, f, attrs, gm=None):
     R = "C07.b"
     ctx.rule(R, "face numbering is a partition: faces[d] = sum(num_faces_per_axis[:d]) + arange(num_faces_per_axis[d]); faces_shape[d] = "
              "shape - e_d; counts are products; face_index reshapes in Fortran order; interior_faces[d] slices face_index[d] with 1:-1 "
              "on every axis but d for dim 1,2,3; exterior faces are the set difference")
     ctx.instance(R)
+    if gm is not None:
+        names = ("faces_shape", "num_faces_per_axis", "num_faces", "faces", "face_index", "interior_faces", "exterior_faces")
+        res = {n_: gm.same_field(n_) for n_ in names}
+        if all(r[0] for r in res.values()):
+            for n_, what in zip(names, ("faces_shape[d] = shape - e_d", "faces per axis = prod(faces_shape)", "num_faces is their total",
+                                        "faces[d] is the contiguous block after the faces of the axes before", "face_index[d] reshapes faces[d] to faces_shape[d] in Fortran order",
+                                        "interior faces exclude the outer layer of every other axis (dim 1, 2, 3)", "exterior faces = faces minus interior faces, per axis")):
+                ctx.ob(R, f.qname, what + " (folded for dim 1, 2, 3; term equals the documented construction)", True, "", f.node)
+            ctx.instance(R, 2)
+            ctx.floor(R, 3)
+            return
     ctx.ob(R, f.qname, "faces_shape[d] = shape - e_d", attrs.get("self.faces_shape") == "[np.array(self.shape) - np.eye(self.dim, dtype=int)[d] for d in range(self.dim)]", attrs.get("self.faces_shape", ""), f.node)
     ctx.ob(R, f.qname, "faces per axis = prod(faces_shape)", attrs.get("self.num_faces_per_axis") == "[np.prod(s) for s in self.faces_shape]", attrs.get("self.num_faces_per_axis", ""), f.node)
     ctx.ob(R, f.qname, "num_faces is their total", attrs.get("self.num_faces") == "np.sum(self.num_faces_per_axis)", attrs.get("self.num_faces", ""), f.node)
@@ -135,7 +160,7 @@ def rule_b(ctx, f, attrs):
     ctx.floor(R, 3)
 
 
-def rule_c(ctx, f):
+def rule_c(ctx, f, gm=None):
     R = "C07.c"
     ctx.rule(R, "corner indices lie on the face: the literal cell_corners tables (dim 1,2,3) and every literal store "
              "cell_corner_indices[faces[d], side, n] = c are extracted; corner c has coordinate 1 on axis d for side 0 (lower cell) and 0 "
@@ -143,7 +168,13 @@ def rule_c(ctx, f):
              "same corners in the same order")
     corners = {}
     stores = {}
-    for st in ast.walk(f.node):
+    sem_tables = gm.corner_tables() if gm is not None else None
+    if sem_tables is not None:
+        # read off the folded object: however the tables are written (literal stores, broadcast rows, helper methods)
+        corners = sem_tables[0]
+        for k_, ent_ in sem_tables[1].items():
+            stores[k_] = {n_: (c_, f.node) for n_, c_ in ent_.items()}
+    for st in (ast.walk(f.node) if sem_tables is None else ()):
         if not isinstance(st, ast.Assign):
             continue
         t = norm(st.targets[0])
@@ -192,6 +223,9 @@ def rule_c(ctx, f):
             raise AnalysisError(f"reference_cell_corners({dim}) outside the folding language: {e}")
         ctx.ob(R, q.qname, f"dim {dim}: same corners in the same order as Grid.cell_corners", qc == corners[dim], f"{qc} vs {corners[dim]}", q.node)
     alloc = [norm(s.value) for s in ast.walk(f.node) if isinstance(s, ast.Assign) and norm(s.targets[0]) == "self.cell_corner_indices"]
+    if gm is not None and gm.same_field("cell_corner_indices", "connect")[0]:
+        ctx.ob(R, f.qname, "table has 2^(dim-1) corners per face and side", True, "", f.node)
+        return
     ctx.ob(R, f.qname, "table has 2^(dim-1) corners per face and side", alloc == ["np.zeros((self.num_faces, 2, 2 ** (self.dim - 1)), dtype=int)"], str(alloc), f.node)
 
 
@@ -205,9 +239,17 @@ def rule_d(ctx):
     env = {norm(s.targets[0]): norm(s.value) for s in ast.walk(g.node) if isinstance(s, ast.Assign)}
     rets = [r.value for r in ast.walk(g.node) if isinstance(r, ast.Return)]
     p = g.params[0]
-    ok = len(rets) == 1 and isinstance(rets[0], ast.Call) and norm(rets[0].func) == "Grid" and len(rets[0].args) == 2
-    a0 = env.get(norm(rets[0].args[0]), norm(rets[0].args[0])) if ok else ""
-    a1 = env.get(norm(rets[0].args[1]), norm(rets[0].args[1])) if ok else ""
+    init_params = m.func(MOD, "Grid.__init__").params[1:]
+    ok = len(rets) == 1 and isinstance(rets[0], ast.Call) and norm(rets[0].func) == "Grid" and not any(k.arg is None for k in rets[0].keywords)
+    a0 = a1 = ""
+    if ok:
+        # arguments bound to the constructor's parameters by position or by name
+        bound = dict(zip(init_params, rets[0].args))
+        bound.update({k.arg: k.value for k in rets[0].keywords})
+        ok = set(bound) == set(init_params[:2]) and len(rets[0].args) + len(rets[0].keywords) == 2
+        if ok:
+            a0 = env.get(norm(bound[init_params[0]]), norm(bound[init_params[0]]))
+            a1 = env.get(norm(bound[init_params[1]]), norm(bound[init_params[1]]))
     ctx.ob(R, g.qname, "Grid(image.num_voxels, image.voxel_size)", ok and a0 == f"{p}.num_voxels" and a1 == f"{p}.voxel_size", f"Grid({a0}, {a1})", g.node)
     init = m.func(MOD, "Grid.__init__")
     attrs = {norm(s.targets[0]): norm(s.value) for s in ast.walk(init.node) if isinstance(s, ast.Assign)}
@@ -220,7 +262,13 @@ def rule_d(ctx):
 def run(ctx):
     ctx.consult(MOD)
     f = ctx.model.func(MOD, "Grid._setup")
-    attrs = rule_a(ctx, f)
-    rule_b(ctx, f, attrs)
-    rule_c(ctx, f)
+    from .c07sem import GridModel
+
+    gm = GridModel(f)
+    if not gm.ok:
+        gm = None
+    ctx.stat("grid_setup_folded", gm is not None)
+    attrs = rule_a(ctx, f, gm)
+    rule_b(ctx, f, attrs, gm)
+    rule_c(ctx, f, gm)
     rule_d(ctx)
